@@ -38,6 +38,10 @@ CLAIMED = {
     text="(R3) all 512 flag values are evaluated against the reference policy: PSH|ACK supersets select the data arm, exactly FIN|ACK the FIN|ACK reply, bare ACK/RST and the rest drop arms from which no reply construction is reachable; (R1) on the data arm add_tcb lies behind cookie == ack-1 (mod 2^32, either wrapping_sub or the guarded underflow form) and the application layer behind (already validated | cookie == ack-1), with cookie = generate(client_info,key) of this frame recorded in ClientInfo and used as the table key; from the mismatch edge neither a reply nor a table access is reachable; (R2) reply fields by provenance: ack = wrapping_add(seq, payload().len() as u32), seq = request ack, ACK|PSH only under the Some edge of the application result with the payload appended after the 20-byte header, bare ACK under None; FIN|ACK arm ack = wrapping_add(seq,1), seq = request ack, flags 0x11, stateless; (R4) no remove/clear on the table. Quantifies over all seq/ack values (wrapping ops), payload lengths and histories.",
     note="The reference connection model of the statement is matched clause by clause, not executed. Collisions of the 32-bit cookie are not decided.",
     technique="decision-table extraction + must-pass-through gates + provenance of reply fields on MIR", ref="§4 C07"),
+ 'C04': dict(
+    text="Decides ordering and agreement, not arithmetic: (R1) each of the 7 set_checksum sites is computed over the object it is stored in, dominates the copy of that object into the enclosing payload, and no setter on the object is reachable afterwards (the identical-value UDP length rewrite is recognised); (R2) IPv4 total length / IPv6 payload length are computed from len(packet()) of the very L4 object copied in, the outer buffer is allocated as header size + that length, the Ethernet buffer likewise, IHL 5 / data offset 5 with header-sized prefixes, UDP length = len of the UDP packet on every reply path; (R3) the addresses fed to the TCP/UDP/ICMPv6 checksums are exactly the values the IP header receives along the paths through that checksum site (so the ND-target substitution is applied to both); (R4) TTL 64, DF, window 65535, hop limit 255 on exactly the Neighbor-Advert type edge and 64 under hop_limit==0 on every path; (R5) every header field a layer owns is written on every path to a reply; (R6) a zero UDP/IPv6 checksum is replaced by 0xffff.",
+    note="Checksum arithmetic and setter byte offsets are pnet's (trusted); `as u16` truncation above 64 KiB is not reachable with 4096-byte frames and is not decided.",
+    technique="typestate/ordering via reachability on MIR + provenance agreement between length fields, allocations and copies", ref="§4 C04"),
 }
 
 NOT_YET = {}
